@@ -801,6 +801,16 @@ func VerifTierAFetch(n, feat int) {
 // VerifTierAHistory: up to `calls` calls on ONE abstract knowledge-base instance, each with a new
 // data context: Execute / ExecuteWithContext (cancellable) / FetchMatchingRules. Every call must
 // behave as on a fresh instance: all Tier A oracles are re-asserted from a clean state.
+var vaHistCtxOnly bool
+
+// VerifTierAHistoryCtx (C15): the same histories, with the cancellation flag confined to the calls that were given a
+// context - a plain Execute has none, so a flip inside it is not a cancellation of anything and the C15 oracles
+// would misread it. (VerifTierAHistory itself lets the flag flip there as noise for the C08 oracles.)
+func VerifTierAHistoryCtx(n, k, calls, feat int) {
+	vaHistCtxOnly = true
+	VerifTierAHistory(n, k, calls, feat)
+}
+
 func VerifTierAHistory(n, k, calls, feat int) {
 	w, kb := vaNewWorld(n, k, feat)
 	eng := vaEngine(w)
@@ -811,8 +821,12 @@ func VerifTierAHistory(n, k, calls, feat int) {
 		kind := verif.Choice("call-kind", 3)
 		switch kind {
 		case 0:
-			res := vaExecute(w, kb, eng, nil)
 			f := w.feat
+			if vaHistCtxOnly {
+				// no context in this call: nothing can be cancelled, so the flag must not flip inside it either
+				w.feat &^= fCancel
+			}
+			res := vaExecute(w, kb, eng, nil)
 			w.feat &^= fCancel
 			vaCheck(w, eng, res, first, false)
 			w.feat = f
